@@ -64,6 +64,8 @@ def scenarios(tier: str) -> List[Any]:
                 continue  # one connection on the real worker_serve(): shutdown behaviour as the client sees it
             if name == "c07" and len(p) > 4:
                 continue
+            if name == "c07" and p[2] == "h2_abort_paused":
+                continue  # transport pause (see c08 below); how much of an abandoned body precedes the reset is timing
             if name == "c08" and (p[2] != "win0" or p[3] > 4):
                 continue  # transport pause is modelled differently (asyncio buffers, trio blocks): excluded
             out.append((name, p))
